@@ -53,7 +53,7 @@ for (pid, k) in jobs:
         continue
     t0 = time.time()
     meta = {"property": pid, "seed": str(int(k) + KOFF if KOFF else k), "base_commit": head, "confirmed": False, "round": 2 if KOFF else 1}
-    feats = "fusedev,virtiofs,vhost-user-fs,persist" + (",async-io" if pid == "C20" or "async" in open(os.path.join(src, "demo.diff")).read()[:20000] and pid in ("C20",) else "")
+    feats = "fusedev,virtiofs,vhost-user-fs,persist" + (",async-io" if pid == "C20" or "async_io.rs" in open(os.path.join(src, "demo.diff")).read()[:400] or os.environ.get("FORCE_ASYNC") else "")
     reset()
     rc, out = sh(["git", "apply", "--check", os.path.join(src, "patch.diff")])
     if rc != 0:
